@@ -23,15 +23,16 @@ type IdxDesc struct {
 
 // Coll is one real collection plus what the harness needs to talk to it.
 type Coll struct {
-	W     *World
-	Name  string
-	C     *column.Collection
-	Cols  []ColDesc
-	Idx   []IdxDesc
-	Sorts [][2]string // name, column
-	Trigs [][2]string // name, column
-	Log   *RecLogger
-	Keys  []string // key alphabet probed by dumps
+	W         *World
+	Name      string
+	C         *column.Collection
+	Cols      []ColDesc
+	Idx       []IdxDesc
+	Sorts     [][2]string // name, column
+	Trigs     [][2]string // name, column
+	Log       *RecLogger
+	Keys      []string // key alphabet probed by dumps
+	Restoring bool     // a Restore is running: insert markers of untracked rows are logged as runs
 
 	fmu      sync.Mutex
 	fired    map[string][]Ev // trigger calls since the last apply event
@@ -46,10 +47,11 @@ type World struct {
 	tracked map[uint32]bool // offsets the harness has addressed individually
 	Bulk    bool            // a bulk prologue step is running: loggers summarise
 	Blobs   map[string][]byte
+	snapOf  map[string]string // actor -> collection it is snapshotting
 }
 
 func NewWorld() *World {
-	return &World{T: NewTracer(), Colls: map[string]*Coll{}, tracked: map[uint32]bool{}, Blobs: map[string][]byte{}}
+	return &World{T: NewTracer(), Colls: map[string]*Coll{}, tracked: map[uint32]bool{}, Blobs: map[string][]byte{}, snapOf: map[string]string{}}
 }
 
 func (w *World) Track(o uint32) { w.tmu.Lock(); w.tracked[o] = true; w.tmu.Unlock() }
@@ -737,13 +739,30 @@ func (l *RecLogger) Append(cm commit.Commit) error {
 		return nil
 	}
 	ops := map[string][]Ev{}
+	runs := [][2]int{}
 	for _, u := range cm.Updates {
-		if dec := c.decode(u, cm.Chunk); len(dec) > 0 {
+		dec := c.decode(u, cm.Chunk)
+		if u.Column == "row" && c.Restoring {
+			// a restored block lists every occupied row: untracked ones are summarised as runs
+			var kept []Ev
+			for _, e := range dec {
+				o := e["o"].(int)
+				if e["k"] != "ins" || w.IsTracked(uint32(o)) {
+					kept = append(kept, e)
+				} else if n := len(runs); n > 0 && runs[n-1][1] == o-1 {
+					runs[n-1][1] = o
+				} else {
+					runs = append(runs, [2]int{o, o})
+				}
+			}
+			dec = kept
+		}
+		if len(dec) > 0 {
 			ops[u.Column] = dec
 		}
 	}
 	w.T.Log(Ev{"e": "apply", "t": w.T.Actor(), "c": c.Name, "b": int(cm.Chunk), "id": cm.ID, "chid": chid,
-		"ops": ops, "fired": c.takeFired()})
+		"ops": ops, "fired": c.takeFired(), "runs": runs})
 	if l.Gate != nil {
 		l.Gate(cm)
 	}
